@@ -9,3 +9,4 @@ describe('C04', level='proof', floor=5, explanation='feasibility: prox range, ke
 describe('C18', level='proof', floor=3, explanation='frame conditions of kernels')
 describe('C19', level='proof', floor=3, explanation='degenerate data: zero columns, safety of divisions in kernels')
 describe('C10', level='proof', floor=50, explanation='storage independence of accessors and epoch kernels (bounded shapes, every CSC pattern)')
+describe('C20', level='proof', floor=2, explanation='subscripts of compiled kernels stay inside their arrays (bounded complement: CPython bounds checks on every symbolic kernel run)')
